@@ -136,6 +136,10 @@ func (tx *Transaction) Commit(ctx context.Context, scope *ReferenceScope, expr p
 	tx.operationMutex.Lock()
 	defer tx.operationMutex.Unlock()
 
+	if ctx.Err() != nil {
+		return ConvertContextError(ctx.Err())
+	}
+
 	createdFiles, updatedFiles := tx.UncommittedViews.UncommittedFiles()
 
 	createFileInfo := make([]*FileInfo, 0, len(createdFiles))
